@@ -99,3 +99,49 @@ Definition find_index (prefixes suffixes : list N) (h : addr) : option (option N
     if nlenN prefixes <=? pm then Some None
     else Some (scan_arch (skipn (N.to_nat pm) prefixes) (skipn (N.to_nat pm) suffixes) h pm)
   end.
+
+(* ---- archive index block: archiveWriter.writeIndex / newInMemoryArchiveIndexReader ----
+   span end offsets (uint64, cumulative lengths of the staged byte spans), prefixes (uint64),
+   chunk references (dictionary id, data id : uint32 each), suffixes (12 bytes); chunks sorted
+   by full address (sort.Sort(aw.stagedChunks); addresses are distinct: staging rejects
+   duplicates).  Counts come from the footer (not modelled). *)
+Definition aref := (N * N)%type.
+Definition achunk := (addr * aref)%type.
+Fixpoint insert_achunk (x : achunk) (l : list achunk) : list achunk :=
+  match l with
+  | [] => [x]
+  | y :: t => if addr_ltb (fst y) (fst x) then y :: insert_achunk x t else x :: l
+  end.
+Definition sort_achunks (l : list achunk) : list achunk := fold_right insert_achunk [] l.
+
+Definition ref_bytes (r : aref) : bytes := be_enc w32 (fst r) ++ be_enc w32 (snd r).
+Definition archive_index_bytes (span_lens : list N) (staged : list achunk) : bytes :=
+  let cs := sort_achunks staged in
+  concat (map (be_enc w64) (cumsum 0 span_lens))
+  ++ concat (map (fun c : achunk => be_enc w64 (a_prefix (fst c))) cs)
+  ++ concat (map (fun c : achunk => ref_bytes (snd c)) cs)
+  ++ concat (map (fun c : achunk => be_enc w_suf (a_suffix (fst c))) cs).
+
+Record aindex := mkAindex { ai_spans : list N; ai_prefixes : list N; ai_refs : list aref; ai_suffixes : list N }.
+Definition dec_ref (b : bytes) : aref := (be_dec (firstn w32 b), be_dec (skipn w32 b)).
+Definition parse_archive_index (nspans nchunks : N) (b : bytes) : option aindex :=
+  let ref_size := uint32_size + uint32_size in
+  if negb (nlen b =? uint64_size * nspans + (uint64_size + ref_size + hash_suffix_len) * nchunks) then None
+  else
+    let s := N.to_nat nspans in
+    let n := N.to_nat nchunks in
+    let o1 := uint64_size * nspans in
+    let o2 := o1 + uint64_size * nchunks in
+    let o3 := o2 + ref_size * nchunks in
+    Some (mkAindex (map be_dec (split_n s w64 (sub 0 o1 b)))
+                   (map be_dec (split_n n w64 (sub o1 (uint64_size * nchunks) b)))
+                   (map dec_ref (split_n n (w32 + w32) (sub o2 (ref_size * nchunks) b)))
+                   (map be_dec (split_n n w_suf (sub o3 (hash_suffix_len * nchunks) b)))).
+
+(* archiveReader.resolveChunk: index position -> chunk reference *)
+Definition archive_lookup (ai : aindex) (h : addr) : option (option aref) :=
+  match find_index (ai_prefixes ai) (ai_suffixes ai) h with
+  | None => None
+  | Some None => Some None
+  | Some (Some i) => Some (Some (nth (N.to_nat i) (ai_refs ai) (0, 0)))
+  end.
